@@ -488,6 +488,27 @@ theorem api_key_grants_at_most_admin (h : List Event) (r : Req) (t : Token)
   obtain ⟨e, _, _, _, _, hr, hw, _⟩ := api_keys_reflect_current_config h k kt hl
   exact ⟨parseAPIPermission_range hr, parseAPIPermission_range hw⟩
 
+/-- Configuration reaches the key map: after the option is set, the last entry that imports a key `k`
+    (parses, non-empty path, valid permission names, not expired at that instant) determines the token of
+    `k` — together with `valid_api_key_grants_its_token`, presenting `k` then grants exactly that token. -/
+theorem configured_key_is_imported (st : St) (pre post : List KeyEntry) (e : KeyEntry) (k : Bytes) (kt : KeyToken)
+    (he : parseKey st.now e = .ok k kt)
+    (hpost : ∀ e' ∈ post, ∀ kt', parseKey st.now e' ≠ .ok k kt') :
+    (step st (.setKeys (pre ++ e :: post))).keys.lookup k = some kt :=
+  updateAPIKeys_last_wins { st with cfg := pre ++ e :: post } pre post e k kt rfl he hpost
+
+/-- What makes an entry importable, and with which token. -/
+theorem key_entry_import (now : Nat) (e : KeyEntry) (rp wp : Int)
+    (hp : e.parseOk = true) (hpath : e.path ≠ [])
+    (hr : parseAPIPermission e.read = some rp) (hw : parseAPIPermission e.write = some wp) :
+    (e.expires = .absent → parseKey now e = .ok e.path ⟨⟨rp, wp⟩, none⟩) ∧
+    (e.expires = .bad → parseKey now e = .skip) ∧
+    (∀ t, e.expires = .at t → parseKey now e = if now > t then .expired else .ok e.path ⟨⟨rp, wp⟩, some t⟩) := by
+  refine ⟨?_, ?_, ?_⟩
+  · intro hx; simp [parseKey, hp, hpath, hr, hw, hx]
+  · intro hx; simp [parseKey, hp, hpath, hr, hw, hx]
+  · intro t hx; simp [parseKey, hp, hpath, hr, hw, hx]
+
 /-- Revocation: once the option is set to a value that has no entry for a key, that key grants nothing —
     from any prior state and through any later history that does not set the option again. -/
 theorem revoked_key_grants_nothing (st : St) (cfg : List KeyEntry) (h' : List Event) (r : Req) (k : Bytes)
